@@ -146,9 +146,9 @@ WalkClauses(tr, it) ==
       sig  == IF it.x \notin F /\ it.self /\ isself(want) = <<>> /\ isself(obs) = <<Ev(it.x, TRUE)>>
                  /\ obs[Len(obs)] = Ev(it.x, TRUE)
               THEN "/extraleave" ELSE ""
-  IN IF ~Ok(tr, it.seq) \/ (it.on = "both" /\ Len(it.lv) # Len(it.seq)) \/ it.x \notin 1..tr.n
+  IN IF (it.on = "both" /\ Len(it.lv) # Len(it.seq)) \/ it.x \notin 1..tr.n
      THEN {Cl("Walk.NodesOfTree", k, FALSE)}
-     ELSE { Cl("Walk.NodesOfTree", k, \A i \in 1..Len(it.seq) : it.seq[i] # 0),
+     ELSE { Cl("Walk.NodesOfTree", k, \A i \in 1..Len(it.seq) : it.seq[i] \in 1..tr.n),
             Cl("Walk.EqSpec.body", k, notself(obs) = notself(want)),
             (* the yields of the walk root itself: same events, the enter first and the leave last *)
             Cl("Walk.EqSpec.self", k \o sig, /\ isself(obs) = isself(want)
@@ -163,22 +163,24 @@ NavClauses(tr, it) ==
       F  == FSet(tr, it.flt)
       k  == "nav/" \o it.flt.k
       All == 1..N
-      okall == /\ \A nm \in {"w", "wb", "next", "prev", "first", "last", "nc1", "pc1", "sf", "sfn", "sb", "sbn"} : Ok(tr, it[nm])
-               /\ \A nm \in {"next", "prev", "first", "last", "nc1", "pc1", "sf", "sfn", "sb", "sbn", "nchild", "pchild",
+      lens  == /\ \A nm \in {"next", "prev", "first", "last", "nc1", "pc1", "sf", "sfn", "sb", "sbn", "nchild", "pchild",
                              "cw", "cwb"} : Len(it[nm]) = N
+               /\ \A i \in 1..Len(it.tops) : it.tops[i].x \in All
+      okall == /\ \A nm \in {"w", "wb", "next", "prev", "first", "last", "nc1", "pc1", "sf", "sfn", "sb", "sbn"} : Ok(tr, it[nm])
                /\ \A nm \in {"nchild", "pchild", "cw", "cwb"} : \A x \in All : Ok(tr, it[nm][x])
-               /\ \A i \in 1..Len(it.tops) : it.tops[i].x \in All /\ Ok(tr, it.tops[i].it) /\ Ok(tr, it.tops[i].itb)
+               /\ \A i \in 1..Len(it.tops) : Ok(tr, it.tops[i].it) /\ Ok(tr, it.tops[i].itb)
                                               /\ Ok(tr, it.tops[i].wx) /\ Ok(tr, it.tops[i].wxb)
+      at(f, y) == IF y \in All THEN f[y] ELSE -1          \* total lookup
       kidsIn(x, back) == WalkNodes(T, x, "enter", back, FALSE, FALSE, F)
       tailIf(s) == IF 1 \in F /\ Len(s) > 0 THEN Tail(s) ELSE s
-  IN IF ~okall THEN {Cl("Nav.NodesOfTree", k, FALSE)}
+  IN IF ~lens THEN {Cl("Nav.NodesOfTree", k, FALSE)}
      ELSE
-     { Cl("Nav.NodesOfTree", k, TRUE),
+     { Cl("Nav.NodesOfTree", k, okall),
        Cl("Nav.NextEqSpec", k, \A x \in All : it.next[x] = NextSib(T, x, F)),
        Cl("Nav.PrevEqSpec", k, \A x \in All : it.prev[x] = PrevSib(T, x, F)),
        (* next()/prev() mutually inverse, on the real answers *)
-       Cl("Nav.NextPrevInverse", k, \A a \in F : /\ (it.next[a] # 0 => it.prev[it.next[a]] = a)
-                                                 /\ (it.prev[a] # 0 => it.next[it.prev[a]] = a)),
+       Cl("Nav.NextPrevInverse", k, \A a \in F : /\ (it.next[a] # 0 => at(it.prev, it.next[a]) = a)
+                                                 /\ (it.prev[a] # 0 => at(it.next, it.prev[a]) = a)),
        Cl("Nav.FirstLastEqSpec", k, \A x \in All : it.first[x] = FirstChild(T, x, F) /\ it.last[x] = LastChild(T, x, F)),
        (* next_child()/prev_child() iterated from None agree with walk(recurse=False, self_=False) (real vs real) *)
        Cl("Nav.ChildIterEqWalk", k, \A x \in All : it.nchild[x] = it.cw[x] /\ it.pchild[x] = it.cwb[x]),
@@ -188,8 +190,8 @@ NavClauses(tr, it) ==
             /\ it.last[x]  = (IF it.pchild[x] = <<>> THEN 0 ELSE it.pchild[x][1])),
        (* parent.next_child(x) is x.next() and they are mutually inverse (real vs real) *)
        Cl("Nav.ChildStepEqNext", k, \A x \in All \ {1} : it.nc1[x] = it.next[x] /\ it.pc1[x] = it.prev[x]),
-       Cl("Nav.ChildInverse", k, \A a \in F \ {1} : /\ (it.nc1[a] # 0 => it.pc1[it.nc1[a]] = a)
-                                                    /\ (it.pc1[a] # 0 => it.nc1[it.pc1[a]] = a)),
+       Cl("Nav.ChildInverse", k, \A a \in F \ {1} : /\ (it.nc1[a] # 0 => at(it.pc1, it.nc1[a]) = a)
+                                                    /\ (it.pc1[a] # 0 => at(it.nc1, it.pc1[a]) = a)),
        Cl("Nav.StepEqSpec", k, \A x \in All : /\ it.sf[x]  = StepFwd(T, x, F, TRUE, 0)
                                               /\ it.sfn[x] = StepFwd(T, x, F, FALSE, 0)
                                               /\ it.sb[x]  = StepBack(T, x, F, TRUE, 0)
@@ -220,12 +222,13 @@ PathClauses(tr, it) ==
       All == 1..N
       k == "path"
       shape == /\ Len(it.paths) = N /\ Len(it.strs) = N /\ Len(it.back) = N /\ Len(it.backs) = N
-               /\ Ok(tr, it.back) /\ Ok(tr, it.backs)
+               /\ \A i \in 1..Len(it.rel) : it.rel[i].a \in All /\ it.rel[i].x \in All
+      ids   == /\ Ok(tr, it.back) /\ Ok(tr, it.backs)
                /\ \A i \in 1..Len(it.beyond) : it.beyond[i].r \in 0..N
-               /\ \A i \in 1..Len(it.rel) : it.rel[i].b \in 0..N /\ it.rel[i].a \in All /\ it.rel[i].x \in All
+               /\ \A i \in 1..Len(it.rel) : it.rel[i].b \in 0..N
   IN IF ~shape THEN {Cl("Path.NodesOfTree", k, FALSE)}
      ELSE
-     { Cl("Path.NodesOfTree", k, TRUE),
+     { Cl("Path.NodesOfTree", k, ids),
        Cl("Path.EqSpec", k, \A x \in All : it.paths[x] = PathOf(T, 1, x)),
        (* child_from_path(child_path(x)) = x, list and string form *)
        Cl("Path.Inverse", k, \A x \in All : it.back[x] = x /\ it.backs[x] = x),
